@@ -656,8 +656,8 @@ func init() { registerReplay(c19Prop) }
 var (
 	c19Keys   = []string{"gene", "CDS", "src", "source"}
 	c19Names  = []string{"a", "b", "note", "ab"}
-	c19Values = []string{"a", "b", "ab", "ba", "", "a/b", "x=y", "note", "aab"}
-	c19Res    = []string{"a", "b", ".", "a*", "^a", "b$", "[ab]", "a|b", "", `a\/b`, "=", "x=y", "^$"}
+	c19Values = []string{"a", "b", "ab", "ba", "", "a/b", "x=y", "note", "aab", `a\`, `a\/b`}
+	c19Res    = []string{"a", "b", ".", "a*", "^a", "b$", "[ab]", "a|b", "", `a\/b`, "=", "x=y", "^$", `a\\`, `\\`, `a\\\/b`, `^a\\$`}
 	c19BadRes = []string{"(", "[a", "*a", "a{2", `\`}
 )
 
